@@ -266,7 +266,7 @@ def ext_ip_address(eng, args, kw, node):
     return P(Opq("Addr"), addr_of_int(zint(32), t))
 
 
-@R.external("ipaddress.contains")
+@R.external("Net.contains")
 def ext_in_net(eng, args, kw, node):
     net, ip = args
     return in_net(addr_int(ip.term), net.term)
@@ -354,3 +354,59 @@ def seq_facts(eng):
 @R.external("spec.ValidNet4")
 def _unused(eng, args, kw, node):  # pragma: no cover
     raise Unsupported("n/a")
+
+
+# ---------------------------------------------------------------- logging (ghost log)
+def _log(level):
+    def h(eng, args, kw, node):
+        eng.st.log.append((level, args))
+        return NoneV()
+    return h
+
+
+for _lv in ("debug", "info", "warning", "error", "critical"):
+    R.ext["logging." + _lv] = _log(_lv)
+
+
+# ---------------------------------------------------------------- E-resub (assumed contract of the re module)
+def _pattern_lang(eng, pat):
+    from pyvc import regex as rx
+    try:
+        return rx.Parsed(pat.pattern, pat.flags).body_re()
+    except rx.RegexUnsupported:
+        return None
+
+
+@R.external("re.Pattern.sub")
+def ext_pattern_sub(eng, args, kw, node):
+    """p.sub(repl, s).  E-resub: scan left to right, call `repl` once per match (in order) with a match
+    whose group(0) is in L(body of p); everything else is copied.  With a callable `repl` the call is a
+    loop over an unknown number of matches: it needs an invariant (contract.loops['sub<k>'])."""
+    eng.used_assumptions.add("E-resub")
+    pat, repl, text = args[0], args[1], args[2]
+    if isinstance(repl, Fun):
+        return eng.resub_callable(pat.v, repl, text, node)
+    # string template
+    t = eng.term(repl, STR)
+    ok = z3.Not(z3.Contains(t, zstr("\\")))
+    if eng.may_catch("error"):
+        if not eng.decide(ok):
+            raise RaiseSig("error")
+    else:
+        eng.safety("re.sub template has no backslash", ok, node)
+    r = z3.Const(eng.fresh_name("resub"), S)
+    return P(STR, r)
+
+
+@R.external("meth.match.group")
+def match_group(eng, args, kw, node):
+    m = args[0]
+    g = args[1] if len(args) > 1 else Conc(0)
+    if isinstance(g, Conc) and g.v == 0:
+        return P(STR, m.text)
+    key = g.v if isinstance(g, Conc) else None
+    if key is None:
+        raise Unsupported("symbolic group index")
+    if key not in m.groups:
+        m.groups[key] = OptV(z3.Bool(eng.fresh_name("grp.some")), P(STR, z3.Const(eng.fresh_name("grp"), S)))
+    return m.groups[key]
